@@ -145,7 +145,7 @@ fn random_base(rng: &mut Rng) -> Vec<u8> {
 fn delta_case(rng: &mut Rng) -> Case {
     let base = random_base(rng);
     let bl = base.len() as u64;
-    let n_ins = rng.range(0, 6) as usize;
+    let n_ins = if rng.chance(1, 12) { 0 } else { rng.range(1, 6) as usize };
     let mut is = Vec::new();
     for _ in 0..n_ins {
         if rng.chance(3, 5) && bl > 0 {
@@ -188,7 +188,7 @@ fn delta_case(rng: &mut Rng) -> Case {
     delta.extend_from_slice(&varint(rsz));
     delta.extend_from_slice(&body);
     // malformed stream
-    match rng.below(16) {
+    match rng.below(24) {
         0 if !delta.is_empty() => {
             let i = rng.below(delta.len() as u64) as usize;
             delta[i] ^= 1 << rng.below(8);
